@@ -165,6 +165,13 @@ impl Monitor for C14 {
                         return out;
                     }
                 }
+                // a change of constants starts the volatility bookkeeping afresh: no reference, no accumulator and no timestamp
+                // of the old regime survives (a leftover timestamp would make the next swap "high frequency" against a
+                // reference that no rule produced)
+                if ev.tx.ixs.len() == 1 && post_o.c != pre_o.c && post_o.v != AfVariables::default() {
+                    out.push(viol("variables_survive_a_constants_change", ev.idx, format!("after {} changed the constants of oracle {} its variables read {:?}; they start afresh (all zero) under new constants", ev.tag, m.pubkey, post_o.v)));
+                    return out;
+                }
                 if post_o.c != pre_o.c {
                     if let Some(sp) = ev.post.data(&post_o.whirlpool).and_then(decode::pool).map(|p| p.tick_spacing) {
                         if !crate::mon::c19::constants_valid(&post_o.c, sp) {
